@@ -74,6 +74,7 @@ class Arr(object):
         self.refcls = refcls     # for arrays of object references: static class name
         self.oid = next_oid()
         self.objs = None         # for concrete python-object arrays (dtype=object): list
+        self.nan = None          # 1-D only: (Array Int Bool) term marking NaN entries (None = no NaN anywhere)
 
     @property
     def ndim(self):
@@ -162,6 +163,34 @@ class Closure(object):
         self.params = params
         self.body = body
         self.env = env
+
+
+class PtrTo(object):
+    """C pointer to a non-array value (e.g. vector[void*]*): p[0] is the value"""
+
+    def __init__(self, target):
+        self.target = target
+
+
+class Stub(object):
+    """opaque dependency object whose methods are python callables fn(ex, *args, **kwargs)"""
+
+    def __init__(self, name, methods=None, attrs=None):
+        self.name = name
+        self.methods = methods or {}
+        self.attrs = attrs or {}
+
+    def __deepcopy__(self, memo):
+        return self
+
+
+class StubMethod(object):
+    def __init__(self, stub, name):
+        self.stub = stub
+        self.name = name
+
+    def __deepcopy__(self, memo):
+        return self
 
 
 class Atom(object):
